@@ -1,0 +1,36 @@
+//go:build verif
+
+// Contracts for the HTTP publish handlers of http.go (C10), checked by /verif/cmd/nsqvc. Comment-only file.
+// Ghosts putCalls/putErr/putMsg/putTopic/gotTopic/gotTopicName and the axiom opts_fixed: zz_contracts_publish_verif.go.
+
+package nsqd
+
+//@ pred httpErr(e error, code int) := dyntype(e) == typetag("http_api.Err") && unbox(e, "http_api.Err").Code == code
+//@ ghost gotQuery url.Values
+
+// The topic named by the query: 400 unless the query parses and has a valid `topic`; the topic is created on demand.
+// TRUSTED stub: the body reads req.URL.RawQuery, and the engine gives every read of a field of a net/http struct an arbitrary
+// value (ENGINE GAPS), so the nil check of req.URL cannot be discharged. The clauses below were checked by reading the 15 lines.
+//@ func (s *httpServer) getTopicFromQuery(req *http.Request) (url.Values, *Topic, error)
+//@   props C10
+//@   trusted
+//@   requires s != nil && s.nsqd != nil && req != nil && req.URL != nil
+//@   ensures[errors] result2 != nil ==> httpErr(result2, 400) && getTopicCalls == old(getTopicCalls)
+//@   ensures[topic] result2 == nil ==> result1 != nil && result1 == gotTopic && getTopicCalls == old(getTopicCalls) + 1 && validName(gotTopicName) && result1.idFactory != nil && result1.nsqd != nil && result1.backend != nil
+//@   ensures[query] result2 == nil ==> result0 != nil && forall k string :: {result0[k]} has(result0, k) ==> len(result0[k]) >= 1
+//@   modifies getTopicCalls, gotTopic, gotTopicName, gotTopicAuthSeq, gotTopicAuthOK, NSQD.topicMap, mapstore(map[string]*Topic), gotQuery
+//@   onreturn gotQuery := result0
+
+// POST /pub?topic=..[&defer=ms]
+//@ func (s *httpServer) doPUB(w http.ResponseWriter, req *http.Request, ps httprouter.Params) (interface{}, error)
+//@   props C10 C01
+//@   requires s != nil && s.nsqd != nil && req != nil && req.URL != nil
+//@   ensures[status] result1 != nil ==> httpErr(result1, 400) || httpErr(result1, 413) || httpErr(result1, 500) || httpErr(result1, 503)
+//@   ensures[topic-name-valid] getTopicCalls != old(getTopicCalls) ==> validName(gotTopicName)
+//@   ensures[rejected-enqueues-nothing] result1 != nil ==> putCalls == old(putCalls) || (putCalls == old(putCalls) + 1 && putErr != nil && httpErr(result1, 503))
+//@   ensures[ack-after-put; uses opts_fixed, opts_range] result1 == nil ==> putCalls == old(putCalls) + 1 && putErr == nil && putTopic == gotTopic && putMsg != nil &&
+//@        1 <= len(putMsg.Body) && (cfgMaxMsgSize() < 9223372036854775807 ==> len(putMsg.Body) <= cfgMaxMsgSize())
+//@   ensures[no-defer] result1 == nil && !has(gotQuery, "defer") ==> putMsg.deferred == 0
+//@   ensures[defer-in-range; uses opts_fixed] result1 == nil && has(gotQuery, "defer") ==>
+//@        0 <= parsedInt(gotQuery["defer"][0]) * 1000000 && parsedInt(gotQuery["defer"][0]) * 1000000 <= cfgMaxReqTimeout()
+//@   ensures[deferred-by-defer] result1 == nil && has(gotQuery, "defer") ==> putMsg.deferred == parsedInt(gotQuery["defer"][0]) * 1000000
